@@ -9,7 +9,7 @@ for id in $ids; do
   prop=$(/venv/bin/python -c "import json;print(json.load(open('seeded/$id/meta.json'))['property'])")
   git -C "$rp" checkout -q -- . 2>/dev/null
   if ! git -C "$rp" apply "$here/seeded/$id/patch.diff" 2>/dev/null; then echo "SWEEP $id prop=$prop NOAPPLY"; continue; fi
-  out=$(VERIF_REPO="$rp" timeout 2400 ./check $prop --tier quick --workers ${SW_WORKERS:-16} 2>&1); rc=$?
+  out=$(VERIF_MAX_REPORT=${SW_MAX_REPORT:-2} VERIF_REPO="$rp" timeout 2400 ./check $prop --tier quick --workers ${SW_WORKERS:-16} 2>&1); rc=$?
   git -C "$rp" checkout -q -- .
   nv=$(echo "$out" | grep -c "^VIOLATION")
   first=$(echo "$out" | grep "^VIOLATION" | head -3 | sed 's/replay=[^ ]* //' | cut -c1-220 | tr '\n' '\t')
